@@ -441,6 +441,10 @@ func classify(f failure) string {
 			return "tag-context-space"
 		}
 		return ""
+	case cssCommentHasQuote(src):
+		return "css-comment-quote"
+	case strings.Contains(src, "</script/") || strings.Contains(src, "</script\f") || strings.Contains(src, "</style/") || strings.Contains(src, "</style\f"):
+		return "script-end-tag-slash"
 	case strings.Contains(src, "<!--") && commentHasMarkup(src):
 		return "html-comment-desync"
 	case strings.Contains(src, "`") && inScript(src, "`"):
@@ -517,6 +521,24 @@ func commentHasMarkup(src string) bool {
 		rest = rest[:j]
 	}
 	return strings.Contains(rest, "<")
+}
+
+// a CSS comment inside a style element contains a quote character
+func cssCommentHasQuote(src string) bool {
+	i := strings.Index(strings.ToLower(src), "<style")
+	if i < 0 {
+		return false
+	}
+	rest := src[i:]
+	a := strings.Index(rest, "/*")
+	if a < 0 {
+		return false
+	}
+	b := strings.Index(rest[a+2:], "*/")
+	if b < 0 {
+		return false
+	}
+	return strings.ContainsAny(rest[a+2:a+2+b], `"'`)
 }
 
 func inScript(src, what string) bool {
@@ -661,6 +683,8 @@ func knownCases() []knownCase {
 	kc = append(kc,
 		knownCase{id: "string-escaped-backslash-desync", d: h(`<script>var p = "C:\\"; var x = {{ s }};</script>`), val: "alert(1)"},
 		knownCase{id: "js-string-split-line-separator", d: h(`<script>var b = "{{ s }}{{ s }}";</script>`), val: "\xa8\xe2\x80"},
+		knownCase{id: "css-comment-quote", d: h(`<style>/* it's */ a { color: {{ s }} }</style>`), val: "a b"},
+		knownCase{id: "script-end-tag-slash", d: h(`<script>var x = 1;</script/><a title="{{ s }}">`), val: `" onclick="alert(1)`},
 		knownCase{id: "js-block-comment-breakout", d: h(`<script>/* {{ s }} */</script>`), val: "*/alert(1)/*"})
 	r := h(`<p>{{ render "x.txt" }}</p>`)
 	r.extra["x.txt"] = "{{ s }}"
@@ -727,6 +751,7 @@ func run(c *hx.Ctx) error {
 	nDocs := c.N(6000, 60000)
 	nVals := c.N(9, 14)
 	built6, buildErr := 0, 0
+	var l2docs []*built
 	for i := 0; i < nDocs; i++ {
 		var d doc
 		stream := "main"
@@ -746,6 +771,9 @@ func run(c *hx.Ctx) error {
 			continue
 		}
 		built6++
+		if len(l2docs) < 4000 {
+			l2docs = append(l2docs, b)
+		}
 		for _, f := range d.feats {
 			res.Hist("feature:" + f)
 		}
@@ -798,7 +826,12 @@ func run(c *hx.Ctx) error {
 		return fmt.Errorf("only %d of %d generated documents build — generator is broken\n%s", built6, nDocs, strings.Join(res.Notes, "\n"))
 	}
 
-	// 3. correspondence of the escapers on the values used
+	// 3. layer 2: reference tokenizer vs x/net/html, projected context machine vs the real lexer
+	if err := layer2Validation(c, l2docs); err != nil {
+		return err
+	}
+
+	// 4. correspondence of the escapers on the values used
 	return correspondence(c, used)
 }
 
